@@ -17,6 +17,8 @@ var ErrInjected = errors.New("simconn: injected I/O error")
 type Script struct {
 	In         []byte
 	Chunks     []int // read sizes, cycled; empty means unlimited
+	// EOFWithData: the Read that delivers the last bytes also reports io.EOF
+	EOFWithData bool
 	ReadErrAt  int   // offset at which Read fails with ErrInjected (<0: never)
 	WriteErrAt int   // index of the Write call that fails (<0: never)
 
@@ -57,6 +59,9 @@ func (s *Script) Read(p []byte) (int, error) {
 	}
 	copy(p, s.In[s.Pos:s.Pos+n])
 	s.Pos += n
+	if s.EOFWithData && s.Pos >= len(s.In) && n > 0 && !(s.ReadErrAt >= 0 && s.Pos >= s.ReadErrAt) {
+		return n, io.EOF // the last bytes and the end of the stream in one call, as io.Reader allows
+	}
 	return n, nil
 }
 
